@@ -17,11 +17,12 @@ def propOf (n : Name) : String :=
 
 unsafe def main (args : List String) : IO UInt32 := do
   initSearchPath (← findSysroot)
-  -- the module to audit, e.g. `Props.C05` (default: all of `Props`)
-  let modName : Name := match args with
-    | m :: _ => m.splitOn "." |>.foldl (fun n s => Name.str n s) Name.anonymous
-    | [] => `Props
-  let env ← importModules #[{ module := modName }] {} (trustLevel := 1024)
+  -- the modules to audit, e.g. `Props.C05` or `Props.C02 Props.C02R` (default: all of `Props`)
+  let toName (m : String) : Name := m.splitOn "." |>.foldl (fun n s => Name.str n s) Name.anonymous
+  let mods : Array Import := match args with
+    | [] => #[{ module := `Props }]
+    | ms => (ms.map (fun m => ({ module := toName m } : Import))).toArray
+  let env ← importModules mods {} (trustLevel := 1024)
   let mut bad := 0
   let out ← IO.getStdout
   for (n, ci) in env.constants.toList do
